@@ -286,15 +286,20 @@ def _r077(ctx: Ctx) -> None:
             sector._CUR['it'], sector._CUR['store'] = it, hooks.store
             o = Obj(ci, 'decoder')
             ev = {p: Event({p}) for p in PAULIS}
-            it.call_closure(Closure(fn, mi, ci), [sector.Corr(cond), ev['X'], ev['Y'], ev['Z']],
-                            {'direction': direction}, fn, self_obj=o)
-            return list(log)
+            ret = it.call_closure(Closure(fn, mi, ci), [sector.Corr(cond), ev['X'], ev['Y'], ev['Z']],
+                                  {'direction': direction}, fn, self_obj=o)
+            return ret, list(log)
         outs = guard('R07.7', mi, fn)(lambda: it.explore(thunk))
         seen = {}
         for o in outs:
             if o.kind != 'return':
                 continue
-            for kind, st, value in o.value:
+            ret, lg = o.value
+            if not isinstance(ret, sector.ProbCell) or 'TOP' in repr(ret.value):
+                # the returned array is not one the generic-qubit reading follows: undecided, never a violation
+                raise AnalysisError('R07.7', site, f'update_probabilities("{direction}") returns {ret!r}: '
+                                                   f'per-qubit value not tracked')
+            for kind, st, value in lg:
                 if kind == 'prob-store' and 'flipped' in st:
                     seen[st['flipped']] = value
         tgt = sector.OTHER[cond]
@@ -328,17 +333,24 @@ def run(ctx: Ctx) -> None:
     ctx.rule('R07.8', 'noise-side deformation permutes (p_X,p_Y,p_Z) per qubit with the code\'s table', floor=2)
     ctx.trust('independence across qubits: generate draws each qubit separately from the generator; '
               'rng.random() is uniform on [0,1)')
-    _r071_ctor(ctx)
+    with ctx.part():
+        _r071_ctor(ctx)
     # definition + deformation (shared implementation with C08 R08.6, re-labelled)
     sub = Ctx('C07', ctx.model, ctx.tier, ctx.seed)
     sub.rule('R08.6', '', 0)
-    _r086(sub)
+    with ctx.part():
+        _r086(sub)
     for o in sub.obs:
         rid = 'R07.1' if 'undeformed' in o.key else 'R07.8'
         ctx.ob(rid, o.site, o.what, o.ok, o.detail, key=o.key.split('|', 1)[1], facts=o.facts)
-    _r072_mbp(ctx)
-    _r073(ctx)
-    _r074(ctx)
-    facts = sector.analyse(ctx.model)
-    facts_to_obs(ctx, facts, {'get_weights': 'R07.5', 'prior': 'R07.6', 'update-formula': 'R07.7'})
-    _r077(ctx)
+    with ctx.part():
+        _r072_mbp(ctx)
+    with ctx.part():
+        _r073(ctx)
+    with ctx.part():
+        _r074(ctx)
+    with ctx.part():
+        facts = sector.analyse(ctx.model)
+        facts_to_obs(ctx, facts, {'get_weights': 'R07.5', 'prior': 'R07.6', 'update-formula': 'R07.7'})
+    with ctx.part():
+        _r077(ctx)
